@@ -5,9 +5,9 @@
 (*   - that the machine and the function WrapFetch!RunOnce (used to judge the real runs) agree.           *)
 EXTENDS WrapFetch, TLC, Json, IOUtils, SequencesExt
 CONSTANTS Universe      \* "families" (the scenarios that are also replayed on the real code) | "all"
-VARIABLES sc, run, pc, w, from, hand, fs, fs0, status, fetched
+VARIABLES sc, run, pc, w, from, hand, fs, fs0, status, fetched, dk
 
-vars == <<sc, run, pc, w, from, hand, fs, fs0, status, fetched>>
+vars == <<sc, run, pc, w, from, hand, fs, fs0, status, fetched, dk>>
 
 B == BOOLEAN
 Base == Scenario("files", TRUE, "absent", "none", "absent", "good", "ok",
@@ -38,7 +38,16 @@ F5 == { [Vcs(Base, kd, v, r) EXCEPT !.files = "absent", !.cmd = k] :
             kd \in Kinds \ {"file"}, v \in {"ok", "fail"}, r \in {"head", "pinned"}, k \in Cmds }
       \cup { [Vcs(Base, kd, "ok", "pinned") EXCEPT !.files = "absent", !.patch = "dir", !.pdir = d, !.diff = df, !.cmd = k] :
             kd \in Kinds \ {"file"}, d \in {"absent", "present"}, df \in {"none", "bad"}, k \in {"download", "setup_nodl"} }
-Families == F1 \cup F2 \cup F3 \cup F4 \cup F5
+\* F6: a SERIES of diff files: every position of the series fails (does not apply / missing) with every
+\* combination of applying and failing files around it; alone, after an overlay, after a VCS fetch
+SerQ(S) == { <<a, b>> : a \in S, b \in S } \cup { <<a, b, c>> : a \in S, b \in S, c \in S }
+SerReplayed == SerQ({"good", "bad"}) \cup { <<"missing", "good", "good">>, <<"good", "missing", "good">>,
+                                           <<"good", "good", "missing">>, <<"missing", "good">> }
+F6 == { Ser([Base EXCEPT !.patch = p[1], !.pdir = (IF p[1] = "dir" THEN "present" ELSE "absent"), !.cmd = p[2]], q) :
+            q \in SerReplayed, p \in {<<"none", "download">>, <<"none", "setup">>, <<"dir", "setup">>} }
+      \cup { Ser([Vcs(Base, "git", "ok", "head") EXCEPT !.files = "absent", !.cmd = "download"], q) :
+            q \in {<<"bad", "good">>, <<"good", "bad">>, <<"good", "bad", "good">>} }
+Families == F1 \cup F2 \cup F3 \cup F4 \cup F5 \cup F6
 
 \* the full product, without the fields that are irrelevant for the chosen modes
 SrcT == ({"url"} \X B \X Locs \X ({"none"} \cup Locs) \X Locs \X {"absent"})
@@ -53,15 +62,20 @@ AllVcs == { Vcs(Scenario("files", TRUE, "absent", "none", "absent", "absent", "o
                           p[1], p[2], p[3], p[4], p[5], p[6], p[7], d, k), kd, v, r) :
                kd \in Kinds \ {"file"}, v \in {"ok", "fail"}, r \in {"head", "pinned"},
                p \in PatT, d \in {"none", "good", "bad", "missing"}, k \in Cmds }
-InScenarios(s) == IF Universe = "all" THEN s \in All \/ s \in AllVcs ELSE s \in Families
+\* series of diff files over every overlay and command (local and VCS sources that are fine)
+AllSer == { Ser(s, q) : s \in { x \in All : x.mode = "files" /\ x.hash /\ x.files = "good" /\ x.arch = "ok" /\ x.diff = "none" }
+                              \cup { x \in AllVcs : x.vcs = "ok" /\ x.rev = "head" /\ x.diff = "none" },
+                        q \in SerQ({"good", "bad", "missing"}) }
+InScenarios(s) == IF Universe = "all" THEN s \in All \/ s \in AllVcs \/ s \in AllSer ELSE s \in Families
 \* the replayed families are part of the full product
-ASSUME Universe = "all" => \A f \in Families : f \in All \/ f \in AllVcs
+ASSUME Universe = "all" => \A f \in Families : f \in All \/ f \in AllVcs \/ f \in AllSer
 
 Init == /\ \/ Universe = "all" /\ sc \in All
            \/ Universe = "all" /\ sc \in AllVcs
+           \/ Universe = "all" /\ sc \in AllSer
            \/ Universe # "all" /\ sc \in Families
         /\ run = 1 /\ pc = "start" /\ w = "src" /\ from = "none" /\ hand = "none"
-        /\ fs = InitFS(sc) /\ fs0 = InitFS(sc) /\ status = <<>> /\ fetched = {}
+        /\ fs = InitFS(sc) /\ fs0 = InitFS(sc) /\ status = <<>> /\ fetched = {} /\ dk = 1
 
 \* the command ends; the next one (if any) starts from what is on disk now
 End(ok, newfs) ==
@@ -69,15 +83,16 @@ End(ok, newfs) ==
     /\ fs' = newfs
     /\ fs0' = fs0
     /\ pc' = "ended"
-    /\ UNCHANGED <<sc, run, w, from, hand, fetched>>
+    /\ UNCHANGED <<sc, run, w, from, hand, fetched, dk>>
 NextRun == /\ pc = "ended" /\ run < 2
            /\ run' = run + 1 /\ pc' = "start" /\ fs0' = fs /\ w' = "src" /\ from' = "none" /\ hand' = "none"
+           /\ dk' = 1
            /\ UNCHANGED <<sc, fs, status, fetched>>
 \* a step failed: if this run created the directory it has to go away first
 Fail == IF fs.dir # {}
-        THEN pc' = "cleanup" /\ UNCHANGED <<sc, run, w, from, hand, fs, fs0, status, fetched>>
+        THEN pc' = "cleanup" /\ UNCHANGED <<sc, run, w, from, hand, fs, fs0, status, fetched, dk>>
         ELSE End(FALSE, fs)
-Goto(p) == pc' = p /\ UNCHANGED <<sc, run, fs0, status>>
+Goto(p) == pc' = p /\ UNCHANGED <<sc, run, fs0, status, dk>>
 
 Start == /\ pc = "start"
          /\ IF fs.dir # {}
@@ -145,10 +160,15 @@ Patch == /\ pc = "patch"
                                      ELSE Fail
               [] OTHER -> Goto("locate") /\ w' = "patch" /\ UNCHANGED <<from, hand, fs, fetched>>
 
+\* one step per diff file of the series (dk: the file that is applied next)
 Diff == /\ pc = "diff"
-        /\ CASE sc.diff = "none" -> End(TRUE, fs)
-             [] sc.diff = "good" -> End(TRUE, [fs EXCEPT !.dir = @ \cup {"diff"}])
-             [] OTHER -> Fail
+        /\ LET q == Series(sc)
+           IN IF dk > Len(q)
+              THEN End(TRUE, IF q = <<>> THEN fs ELSE [fs EXCEPT !.dir = (@ \ {"pdiff"}) \cup {"diff"}])
+              ELSE IF q[dk] = "good"
+              THEN /\ dk' = dk + 1 /\ fs' = [fs EXCEPT !.dir = @ \cup {"pdiff"}]
+                   /\ UNCHANGED <<sc, run, pc, w, from, hand, fs0, status, fetched>>
+              ELSE Fail
 
 Cleanup == /\ pc = "cleanup"
            /\ End(FALSE, [fs EXCEPT !.dir = {}])
@@ -160,7 +180,8 @@ Boundary == pc = "ended"
 LastOk == status[Len(status)]
 
 TypeOK == /\ pc \in {"start", "locate", "clone", "cloned", "fetch", "verify", "use", "patch", "diff", "cleanup", "ended"}
-          /\ fs.dir \subseteq {"build", "src", "part", "evil", "patch", "evilpatch", "diff"}
+          /\ fs.dir \subseteq {"build", "src", "part", "evil", "patch", "evilpatch", "diff", "pdiff"}
+          /\ dk \in 1..(Len(Series(sc)) + 1)
           /\ fs.cache \in Locs /\ fs.pcache \in Locs /\ Len(status) <= 2
 
 \* an archive whose SHA-256 differs from the recorded hash is never unpacked or stored - in no state at all
@@ -178,6 +199,10 @@ ClientRunsWhenAllowed ==
 FailedPatchLeavesNoDir == Boundary /\ ~LastOk /\ fs0.dir = {} => fs.dir = {}
 \* no run - in particular no second run - reports success on a half-prepared subproject
 SecondRunNeverAcceptsHalfPrepared == Boundary /\ LastOk => ~HalfPrepared(sc, fs.dir)
+\* a diff file that cannot be applied - at whatever position of the series - fails the run that reaches it and
+\* nothing of the series stays behind; the files after it are never the ones that decide
+AnyDiffOfSeriesFails ==
+    Boundary /\ FirstBadDiff(sc) > 0 /\ fs0.dir = {} => ~LastOk /\ fs.dir = {}
 \* the second run has the verdict of the first and, after a success, changes nothing
 SecondRunSameVerdict == Boundary /\ Len(status) = 2 => status[1] = status[2] /\ (status[1] => fs = fs0)
 \* the machine and the function agree at the end of every run
